@@ -1,8 +1,41 @@
-"""C11 — layout family; see harness/layout.py and harness/props/_layout.py"""
+"""C11 — layout family; see harness/layout.py and harness/props/_layout.py; placement refusals: harness/place.py"""
 from ._layout import make
+from .. import place
 
 PROP = "C11"
-run, search, replay = make(PROP, ('C11:',),
-                           'Oracle C11: bad indices (negative, == dim, > dim, partial), wrong-shape array values, over-long strings and over-sized items must raise, and the whole buffer image must be byte-identical afterwards.',
-                           ['known finding O-13: a dictionary update of a nested struct applies earlier fields before a later field raises (not atomic)'],
-                           ['union membership (refused bindings in the node histories of the reference-graph stream: the model leaves the state unchanged), foreign-context buffers and offset-without-buffer are refusals checked by the tie and oracles, not theorems'], rg=True)
+_run, _search, replay = make(PROP, ('C11:',),
+                             'Oracle C11: bad indices (negative, == dim, > dim, partial), wrong-shape array values, over-long strings and over-sized items must raise, and the whole buffer image must be byte-identical afterwards. '
+                             'Placement (component `place`): allocate_on_buffer and the Struct / Array / String constructors with every combination of '
+                             '_context (none / default / two others), _buffer (none / one per context) and _offset (none, "aligned", "packed", 0, 8, 24, 40) - '
+                             '448 requests - against Place.decide (theorems C11_offset_without_buffer_refused, C11_foreign_context_refused, '
+                             'C11_placement_refused_iff, C11_placement_accepted): refusal kind / chosen buffer / how the offset is obtained; a refusal '
+                             'allocates nothing and changes no buffer.',
+                             ['known finding O-13: a dictionary update of a nested struct applies earlier fields before a later field raises (not atomic)'],
+                             ['union membership: refused bindings in the node histories of the reference-graph stream (theorem C11_nonmember_refused + tie); '
+                              'array updates of another length / shape and nested items that are too large: executable model + oracle (the string case is a theorem)'], rg=True)
+_cache = {}
+
+
+def _place(tier, seed):
+    if (tier, seed) not in _cache:
+        _cache[(tier, seed)] = place.run_all(tier, seed)
+    return _cache[(tier, seed)]
+
+
+def run(tier, seed):
+    r = _run(tier, seed)
+    p = _place(tier, seed)
+    r["failures"] = r["failures"] + [f for f in p["failures"] if f.key.startswith("C11:")]
+    r["mismatches"] = r["mismatches"] + p["mismatches"]
+    r["evaluations"] += p["lines"]
+    r["traces"] += p["lines"]
+    r["distinct_nontrivial"] += p["distinct"]
+    r.setdefault("tags", {}).update({("place." + k): v for k, v in p["tags"].items()})
+    if isinstance(r.get("correspondence"), dict):
+        r["correspondence"]["place"] = {"lines": p["lines"], "mismatches": len(p["mismatches"])}
+    return r
+
+
+def search(mismatches, seed):
+    out = [f for f in place.run_all("quick", seed + 1)["failures"] if f.key.startswith("C11:")]
+    return out + _search(mismatches, seed)
